@@ -12,7 +12,7 @@ Open Scope Z_scope.
 (* ---- outcomes -------------------------------------------------------------------------------------------- *)
 (* the exception classes the translated functions can raise, plus those of the translated operators *)
 Inductive exn := ValueError | AssertionError | IndexError | ZeroDivisionError | TypeError | NotImplementedError | ArithmeticError
-               | KeyError | AttributeError
+               | KeyError | AttributeError | RuntimeError
                | PassedException     (* `raise e` where e is a parameter holding an exception object built by the caller *)
                | UnmodelledEffect.   (* an operation whose effect lies outside the value domain (item assignment INTO a tensor) *)
 
@@ -231,3 +231,29 @@ Definition t_narrow0 (t : tensor) (a n : Z) : tensor :=
 Definition t_view (t : tensor) (shape : list Z) : tensor :=
   let known := fold_right Z.mul 1 (filter (fun d => negb (d =? -1)) shape) in
   {| t_off := t_off t; t_len := t_len t; t_shape := map (fun d => if d =? -1 then t_len t / known else d) shape |}.
+
+(* ---- strided views ----------------------------------------------------------------------------------------- *)
+(* A tensor that the translated code only splits with torch.split is a strided VIEW of the storage of the argument tensor:
+   (storage offset, sizes, strides); no data, no copy. *)
+Record py_view := mk_view { pv_off : Z; pv_sizes : list Z; pv_strides : list Z }.
+
+Definition pv_dim (v : py_view) : Z := py_len (pv_sizes v).                 (* t.dim() *)
+
+Fixpoint pv_set_nth (d : nat) (x : Z) (l : list Z) : list Z :=
+  match l with [] => [] | y :: r => match d with O => x :: r | S d' => y :: pv_set_nth d' x r end end.
+
+(* t.narrow(d, start, len): same strides, the offset moves by start * stride[d], size[d] becomes len *)
+Definition pv_narrow (v : py_view) (d : nat) (start len : Z) : py_view :=
+  mk_view (pv_off v + start * nth d (pv_strides v) 0) (pv_set_nth d len (pv_sizes v)) (pv_strides v).
+
+(* torch.split(t, b, dim=d) with an int b (ATen split): k = max(ceil(size[d] / b), 1) views t.narrow(d, i*b, len_i), where
+   len_i = b for i < k-1 and the last one takes what is left, b - (b*k - size[d]).  b <= 0 is rejected here with RuntimeError
+   (torch rejects negative b, and b = 0 unless size[d] = 0: that one accepted case is not modelled); a dimension outside
+   0..dim()-1 raises IndexError. *)
+Definition pv_split (v : py_view) (b d : Z) : result (list py_view) :=
+  if b <=? 0 then Raise RuntimeError 0
+  else if (d <? 0) || (pv_dim v <=? d) then Raise IndexError 0
+  else
+    let n := nth (Z.to_nat d) (pv_sizes v) 0 in
+    let k := Z.max ((n + b - 1) / b) 1 in
+    Ret (map (fun i => pv_narrow v (Z.to_nat d) (i * b) (if i <? k - 1 then b else b - (b * k - n))) (py_range 0 k)).
